@@ -173,6 +173,7 @@ pub fn build_abiding(g: &Genome) -> Built {
             attr_life: None,
             attr_clone: None,
             allow_unused: false,
+            v1_flip: false,
         });
         discs.push(disc);
         claimed.push(false);
@@ -193,6 +194,7 @@ pub fn build_abiding(g: &Genome) -> Built {
             attr_life: None,
             attr_clone: None,
             allow_unused: false,
+            v1_flip: false,
         });
         discs.push(Disc::BorrowOnly);
         claimed.push(false);
@@ -334,6 +336,8 @@ pub fn build_abiding(g: &Genome) -> Built {
         .collect();
     for t in &overridable {
         types[*t].variants = 2;
+        // the two constructors of a type need not agree on fallibility
+        types[*t].v1_flip = (*t + g.n_errs as usize) % 2 == 0;
     }
 
     // ---- blueprint
@@ -885,7 +889,10 @@ fn registered_comps(spec: &AppSpec) -> Vec<usize> {
         for c in &v {
             errs.extend(spec.comps[*c].fallible);
             for t in crate::model::closure(spec, &spec.comps[*c].inputs) {
-                errs.extend(spec.types[t].fallible);
+                // (a singleton fails, if ever, before the server starts: no error handler involved)
+                if spec.types[t].life != Life::Singleton {
+                    errs.extend(spec.types[t].fallible);
+                }
             }
         }
         let mut grew = false;
@@ -1037,6 +1044,36 @@ pub fn plant(base: &AppSpec, rule: usize, raw: u16) -> Option<Planted> {
             nontrivial = needed.iter().find(|(t, _)| *t == s).is_some_and(|(_, d)| *d >= 2);
             what = format!("singleton T{s} (needed while serving requests) is no longer Send + Sync");
         }
+        5 if raw % 4 == 1 => {
+            // a brand-new never-clone singleton (its type implements Clone) that a single component takes by value
+            let cands: Vec<usize> = comps.iter().copied().filter(|c| matches!(spec.comps[*c].kind, CompKind::Handler | CompKind::Pre | CompKind::Post | CompKind::Wrap)).collect();
+            let wraps: Vec<usize> = cands.iter().copied().filter(|c| spec.comps[*c].kind == CompKind::Wrap).collect();
+            if cands.is_empty() {
+                return None;
+            }
+            let c = if !wraps.is_empty() && raw % 8 == 1 { wraps[choose(wraps.len())] } else { cands[choose(cands.len())] };
+            let t = spec.types.len();
+            spec.types.push(TypeSpec {
+                life: Life::Singleton,
+                is_clone: true,
+                is_copy: false,
+                clone_if_necessary: if raw % 16 < 8 { None } else { Some(false) },
+                inputs: vec![],
+                fallible: None,
+                is_async: false,
+                variants: 1,
+                send_sync: true,
+                prebuilt: false,
+                attr_life: None,
+                attr_clone: None,
+                allow_unused: false,
+                v1_flip: false,
+            });
+            spec.bp.insert(0, Reg::Ctor { ty: t, variant: 0 });
+            spec.comps[c].inputs.push((t, Mode::Move));
+            nontrivial = spec.comps[c].kind != CompKind::Handler;
+            what = format!("component x{c} takes the new never-clone singleton T{t} by value (nothing else uses it)");
+        }
         5 | 6 | 7 | 8 => {
             // change how one request-time component takes a value
             let want = |t: &TypeSpec| match rule % RULES.len() {
@@ -1047,7 +1084,7 @@ pub fn plant(base: &AppSpec, rule: usize, raw: u16) -> Option<Planted> {
             };
             let mut sites = vec![];
             for c in &comps {
-                if !matches!(spec.comps[*c].kind, CompKind::Handler | CompKind::Pre | CompKind::Post) {
+                if !matches!(spec.comps[*c].kind, CompKind::Handler | CompKind::Pre | CompKind::Post | CompKind::Wrap) {
                     continue;
                 }
                 for (ii, (t, m)) in spec.comps[*c].inputs.iter().enumerate() {
@@ -1078,8 +1115,14 @@ pub fn plant(base: &AppSpec, rule: usize, raw: u16) -> Option<Planted> {
                 spec.comps[c].inputs.push((t, Mode::Ref));
                 sites.push((c, spec.comps[c].inputs.len() - 1, t));
             }
-            let (c, ii, t) = sites[choose(sites.len())];
+            // wrapping middlewares are bound copies of the registered component inside the compiler: prefer them half of the time
+            let wrap_sites: Vec<(usize, usize, usize)> = sites.iter().copied().filter(|(c, _, _)| spec.comps[*c].kind == CompKind::Wrap).collect();
+            let (c, ii, t) = if !wrap_sites.is_empty() && raw % 2 == 0 { wrap_sites[choose(wrap_sites.len())] } else { sites[choose(sites.len())] };
             spec.comps[c].inputs[ii].1 = if rule % RULES.len() == 5 { Mode::Move } else { Mode::Mut };
+            if rule % RULES.len() == 5 && raw % 4 < 2 {
+                // the type may well implement Clone: what counts is that it is not registered clone-if-necessary
+                spec.types[t].is_clone = true;
+            }
             nontrivial = !matches!(spec.comps[c].kind, CompKind::Handler);
             what = format!("component x{c} now takes T{t} as {:?}", spec.comps[c].inputs[ii].1);
         }
@@ -1109,7 +1152,11 @@ pub fn plant(base: &AppSpec, rule: usize, raw: u16) -> Option<Planted> {
         11 => {
             let obs: Vec<usize> = comps.iter().copied().filter(|c| spec.comps[*c].kind == CompKind::Observer).collect();
             let fall: Vec<usize> = (0..spec.types.len())
-                .filter(|t| spec.types[*t].variants == 1 && (spec.types[*t].fallible.is_some() || crate::model::closure(&spec, &spec.types[*t].inputs).iter().any(|u| spec.types[*u].fallible.is_some())))
+                .filter(|t| {
+                    // (a fallible *singleton* does not count: it is built before the server starts)
+                    spec.types[*t].variants == 1
+                        && (spec.types[*t].fallible.is_some() || crate::model::closure(&spec, &spec.types[*t].inputs).iter().any(|u| spec.types[*u].fallible.is_some() && spec.types[*u].life != Life::Singleton))
+                })
                 .filter(|t| spec.types[*t].life != Life::Singleton)
                 .collect();
             if obs.is_empty() || fall.is_empty() {
@@ -1246,6 +1293,7 @@ pub fn apply_attr_styles(base: &AppSpec, raw: u64) -> Styled {
             attr_life: None,
             attr_clone: None,
             allow_unused: allow,
+            v1_flip: false,
         });
         spec.bp.insert(0, Reg::Ctor { ty: i, variant: 0 });
         unused.push((i, allow));
@@ -1282,6 +1330,7 @@ pub fn build_stage_stress(raw: u64) -> AppSpec {
         attr_life: None,
         attr_clone: None,
         allow_unused: false,
+        v1_flip: false,
     };
     // T0: request-scoped clone-if-necessary; T1: singleton clone-if-necessary; T2: request-scoped Copy; T3: transient built from &T0
     let mut types = vec![mk_type(Life::Request, false), mk_type(Life::Singleton, false), mk_type(Life::Request, true)];
@@ -1367,4 +1416,65 @@ pub fn build_stage_stress(raw: u64) -> AppSpec {
         }
     }
     AppSpec { types, n_errs: if with_errors { 1 } else { 0 }, comps, bp, note: "abiding (stage stress)".into() }
+}
+
+// ------------------------------------------------------------------------------------------
+// Naming stress (C10): several fallible singletons whose constructors share a function name
+// (`cs<i>_0::build`) and fail with different error types, consumed by a few routes. Names of
+// generated items (application-state fields, error variants, bindings) must not depend on the
+// iteration order of hash maps.
+// ------------------------------------------------------------------------------------------
+
+pub fn build_naming_stress(raw: u64) -> AppSpec {
+    let mut s = raw | 1;
+    let mut next = move || {
+        s ^= s << 13;
+        s ^= s >> 7;
+        s ^= s << 17;
+        (s >> 9) as usize
+    };
+    let n_single = 3 + next() % 4;
+    let mut types = vec![];
+    for i in 0..n_single {
+        types.push(TypeSpec {
+            life: Life::Singleton,
+            is_clone: i % 2 == 0,
+            is_copy: false,
+            clone_if_necessary: if i % 2 == 0 { Some(true) } else { None },
+            inputs: if i > 0 && next() % 3 == 0 { vec![(next() % i, Mode::Ref)] } else { vec![] },
+            fallible: if i + 1 == n_single && next() % 2 == 0 { None } else { Some(i) },
+            is_async: next() % 3 == 0,
+            variants: 1,
+            send_sync: true,
+            prebuilt: false,
+            attr_life: None,
+            attr_clone: None,
+            allow_unused: false,
+            v1_flip: false,
+        });
+    }
+    let n_errs = n_single;
+    let mut comps = vec![];
+    let mut bp: Vec<Reg> = (0..n_single).map(|t| Reg::Ctor { ty: t, variant: 0 }).collect();
+    for h in 0..(2 + next() % 3) {
+        let mut inputs = vec![];
+        for t in 0..n_single {
+            if next() % 2 == 0 {
+                inputs.push((t, Mode::Ref));
+            }
+        }
+        if inputs.is_empty() {
+            inputs.push((h % n_single, Mode::Ref));
+        }
+        bp.push(Reg::Comp { idx: comps.len() });
+        comps.push(CompSpec {
+            kind: CompKind::Handler,
+            inputs,
+            fallible: None,
+            is_async: next() % 2 == 0,
+            route: Some(RouteSpec { methods: vec!["GET".into()], path: format!("/h{h}"), path_param_fields: vec![], bulk: false }),
+            fw: vec![],
+        });
+    }
+    AppSpec { types, n_errs, comps, bp, note: "abiding (naming stress)".into() }
 }
